@@ -21,6 +21,9 @@
 //! The cache's contents will grow past its stated capacity, but
 //! should rarely reach more than twice that capacity, especially
 //! when the shard capacity is less than 128 files.
+#[cfg(kismet_verif)]
+#[allow(unused_imports)]
+use kismet_vfs::{filetime, libc, rand, std, tempfile};
 use std::borrow::Cow;
 use std::fs::File;
 use std::io::Result;
